@@ -3024,6 +3024,227 @@ def pairing(repo, out):
         out.unsure(pfn, pfn.node, 'nonzero map / return pair of _color_partition not recognised')
 
 
+# =========================================================================== C03.applies
+DRIVER = 'openmdao/core/driver.py'
+SYSTEM = 'openmdao/core/system.py'
+
+
+@rule('C03.applies', floor=1)
+def applies(repo, out):
+    """The driver's colouring is adopted by a _TotalJacInfo only for the driver's own of/wrt: never with custom
+    of/wrt lists or index overrides (the colour groups and nonzero maps are laid out for the driver ordering)."""
+    fn = repo.func(TJ, '_TotalJacInfo.__init__')
+    cx = Ctx(fn)
+    adopt = [st for st in astx.walk_stmts(fn.node.body) if isinstance(st, ast.Assign) and
+             astx.path(st.value) == 'driver._coloring_info']
+    if len(adopt) != 1:
+        out.unsure(fn, fn.node, f'{len(adopt)} adoption sites of driver._coloring_info found')
+        return
+    st = adopt[0]
+    parts, outer = _guard_formula(st, cx)
+
+    def orig_param(name, at):
+        """parameter that a local snapshot (orig_of = of) stands for"""
+        if cx.is_param(name, at):
+            return name
+        v, d = cx.value(at, name)
+        if isinstance(v, ast.Name) and cx.is_param(v.id, d):
+            return v.id
+        return None
+
+    def atom_of(e):
+        at = cx.at(e)
+        if isinstance(e, ast.Compare) and len(e.ops) == 1 and isinstance(e.ops[0], (ast.Is, ast.IsNot)) and \
+                isinstance(e.comparators[0], ast.Constant) and e.comparators[0].value is None and \
+                isinstance(e.left, ast.Name):
+            p = orig_param(e.left.id, at)
+            if p in ('of', 'wrt', 'of_indices', 'wrt_indices'):
+                return f'{p}_none' if isinstance(e.ops[0], ast.Is) else ('not', f'{p}_none')
+        if isinstance(e, ast.Name) and e.id == 'has_custom_derivs':
+            return 'custom'
+        if isinstance(e, ast.Name) and e.id == 'driver' and cx.is_param('driver', at) or \
+                isinstance(e, ast.Name) and e.id == 'driver':
+            return 'driver'
+        return 'free:' + sdump(e)
+    fs = []
+    for test, pos, _ in parts:
+        f = boolx.from_ast(test, atom_of)
+        fs.append(f if pos else boolx.Not(f))
+    G = boolx.And(*fs) if fs else boolx.TRUE
+    A = boolx.A
+    req = boolx.And(A('driver'), boolx.Or(boolx.Not(A('custom')), boolx.And(A('of_none'), A('wrt_none'))),
+                    A('of_indices_none'), A('wrt_indices_none'))
+    okg, n, cex = boolx.implies(G, req, extra_atoms=['driver', 'custom', 'of_none', 'wrt_none', 'of_indices_none',
+                                                     'wrt_indices_none'])
+    out.count('rows', n)
+    if okg:
+        out.ok(fn, st, 'driver colouring adopted only when of/wrt are the driver\'s (no custom lists, no index overrides)')
+    else:
+        shown = {k: v for k, v in cex.items() if not k.startswith('free:')}
+        out.bad(fn, outer or st, 'the driver colouring is adopted for a request that is not the driver\'s own of/wrt ('
+                + boolx.fmt_val(shown) + '): colour groups and nonzero maps computed for the driver ordering are applied '
+                'to a different jacobian layout', key='applies-guard')
+
+
+# =========================================================================== C03.stale
+@rule('C03.stale', floor=1)
+def stale(repo, out):
+    """Driver (re)setup drops a previously generated total colouring whenever one may exist (dynamic or static)."""
+    fn = repo.func(DRIVER, 'Driver._setup_driver')
+    cx = Ctx(fn)
+    resets = [s for s in astx.walk_stmts(fn.node.body) if isinstance(s, ast.Assign) and
+              any(astx.path(t) == 'self._coloring_info.coloring' for t in s.targets) and
+              isinstance(s.value, ast.Constant) and s.value.value is None]
+    if not resets:
+        out.bad(fn, fn.node, 'setup never resets self._coloring_info.coloring: a colouring generated for the previous model '
+                'structure is reused after re-setup', key='stale-reset')
+        return
+
+    def atom_of(e):
+        p = astx.path(e)
+        if p == 'self._coloring_info.dynamic':
+            return 'dynamic'
+        if p == 'coloring_mod._use_total_sparsity':
+            return 'enabled'
+        if isinstance(e, ast.Compare) and len(e.ops) == 1 and isinstance(e.ops[0], (ast.Is, ast.IsNot)) and \
+                isinstance(e.comparators[0], ast.Constant) and e.comparators[0].value is None and \
+                astx.path(e.left) == 'self._coloring_info.static':
+            return ('not', 'static') if isinstance(e.ops[0], ast.Is) else 'static'
+        return 'free:' + sdump(e)
+    Gs = []
+    for st in resets:
+        parts, _ = _guard_formula(st, cx)
+        fs = []
+        for test, pos, _ in parts:
+            f = boolx.from_ast(test, atom_of)
+            fs.append(f if pos else boolx.Not(f))
+        Gs.append(boolx.And(*fs) if fs else boolx.TRUE)
+    G = boolx.Or(*Gs)
+    A = boolx.A
+    need = boolx.And(A('enabled'), boolx.Or(A('dynamic'), A('static')))
+    okg, n, cex = boolx.implies(need, G, extra_atoms=['enabled', 'dynamic', 'static'])
+    out.count('rows', n)
+    g = cx.g
+    getters = g.calling('_get_static_coloring')
+    late = [r for st in resets for r in g.nodes_of(st)
+            if any(r in g.reach(g.normal_succ(x), labels=cfgm.noexc) for x in getters)]
+    if not okg:
+        out.bad(fn, resets[0], 'the colouring is kept across setup when ' + boolx.fmt_val(
+            {k: v for k, v in cex.items() if not k.startswith('free:')}) + ': a colouring generated for the previous '
+            'sparsity pattern is applied to the new jacobian', key='stale-reset')
+    elif late and len(late) == len(resets):
+        out.bad(fn, resets[0], 'the colouring is reset only after the static colouring was re-installed',
+                key='stale-reset')
+    else:
+        out.ok(fn, resets[0], 'colouring reset on setup whenever dynamic or static colouring is configured')
+
+
+# =========================================================================== C03.sparsity
+_ABS = ('np.abs', 'numpy.abs', 'abs', 'np.absolute', 'numpy.absolute', 'np.fabs', 'numpy.fabs')
+_PATTERN_ONLY = ('np.nonzero', 'numpy.nonzero', 'np.count_nonzero', 'np.flatnonzero', 'len', 'np.shape')
+
+
+@rule('C03.sparsity', floor=6)
+def sparsity(repo, out):
+    """Sampled jacobians enter the sparsity accumulators as magnitudes on every path (no sign cancellation), and
+    relative sampling perturbations are never zero."""
+    for rel, qn, sample_of in ((COL, '_get_total_jac_sparsity', 'call:compute_totals'),
+                               (COL, '_ColSparsityJac.set_col', 'param:2')):
+        fn = repo.func(rel, qn)
+        if sample_of.startswith('param:'):
+            samples = {fn.node.args.args[int(sample_of[6:]) + 1].arg}
+        else:
+            samples = {t.id for st in astx.walk_stmts(fn.node.body) if isinstance(st, ast.Assign)
+                       and isinstance(st.value, ast.Call) and astx.callee_attr(st.value) in ('compute_totals', '_compute_totals')
+                       for t in st.targets if isinstance(t, ast.Name)}
+        if not samples:
+            out.unsure(fn, fn.node, 'sampled jacobian not identified')
+            continue
+        n_here = 0
+        for st in astx.walk_stmts(fn.node.body):
+            if not isinstance(st, (ast.Assign, ast.AugAssign)):
+                continue
+            for n in astx.walk(st.value):
+                if not (isinstance(n, ast.Name) and n.id in samples):
+                    continue
+                wrap = None
+                for a in astx.ancestors(n):
+                    if a is st:
+                        break
+                    if isinstance(a, ast.Call) and astx.call_name(a) in _ABS + _PATTERN_ONLY:
+                        wrap = astx.call_name(a)
+                        break
+                    if isinstance(a, ast.Attribute) and a.attr in ('shape', 'size', 'dtype', 'ndim'):
+                        wrap = 'meta'
+                        break
+                    if isinstance(a, ast.Compare):
+                        wrap = 'meta'
+                        break
+                if wrap in _PATTERN_ONLY or wrap == 'meta':
+                    continue
+                n_here += 1
+                if wrap in _ABS:
+                    out.ok(fn, st, f'{n.id} enters the accumulator through {wrap}()')
+                else:
+                    out.bad(fn, st, f'the signed sample {n.id} is stored/accumulated without abs(): samples of opposite sign '
+                            'cancel, structural nonzeros fall below the tolerance and vanish from the sparsity that is '
+                            'coloured', key='sparsity-abs')
+        if not n_here:
+            out.unsure(fn, fn.node, 'no accumulation of the sampled jacobian found')
+
+    # relative perturbations: zero entries are replaced before/after scaling by perturb_size, before use
+    for rel, qn in ((EXEC, 'ExecComp._compute_coloring'), (SYSTEM, 'System._perturbation_iter')):
+        fn = repo.func(rel, qn)
+        cx = Ctx(fn)
+        g = cx.g
+        scal = [n for n in g.nodes if n.kind == 'stmt' and isinstance(n.ast, ast.AugAssign) and
+                isinstance(n.ast.op, ast.Mult) and isinstance(n.ast.target, ast.Name) and
+                astx.mentions(n.ast.value, 'perturb_size')]
+        if len(scal) != 1:
+            out.unsure(fn, fn.node, f'{len(scal)} `<perturbation> *= perturb_size` statements found')
+            continue
+        sc = scal[0]
+        pv = sc.ast.target.id
+        d = cx.unique_def(sc, pv) if len(cx.rd.defs(sc, pv)) == 1 else None
+        # the definition reaching the scaling through the zero-fix is the fix itself only if it rebinds; it is a
+        # subscript store, so the reaching definition is the copy
+        if d is None or not (d.kind == 'stmt' and isinstance(d.ast, ast.Assign) and isinstance(d.ast.value, ast.Call)
+                             and astx.callee_attr(d.ast.value) in ('copy', 'array', 'asarray')):
+            out.unsure(fn, sc.ast, f'origin of the perturbation array {pv} not recognised')
+            continue
+
+        def is_fix(n):
+            if n.kind != 'stmt' or not isinstance(n.ast, ast.Assign) or len(n.ast.targets) != 1:
+                return False
+            t = n.ast.targets[0]
+            if not (isinstance(t, ast.Subscript) and isinstance(t.value, ast.Name) and t.value.id == pv):
+                return False
+            c = t.slice
+            zero_mask = isinstance(c, ast.Compare) and len(c.ops) == 1 and isinstance(c.ops[0], ast.Eq) and \
+                {sdump(c.left), sdump(c.comparators[0])} & {sdump(ast.Name(id=pv, ctx=ast.Load()))} and \
+                any(isinstance(x, ast.Constant) and x.value == 0 for x in (c.left, c.comparators[0]))
+            try:
+                val = ast.literal_eval(n.ast.value)
+            except (ValueError, TypeError, SyntaxError):
+                val = None
+            nonzero = (isinstance(val, (int, float)) and val != 0) or astx.mentions(n.ast.value, 'perturb_size')
+            return bool(zero_mask) and nonzero
+        fixes = g.where(is_fix)
+        users = [n for n in g.nodes if n not in fixes and n is not sc and n is not d and n.kind in ('stmt', 'test', 'iter', 'with')
+                 and any(isinstance(x, ast.Name) and x.id == pv and isinstance(x.ctx, ast.Load)
+                         for e in n.exprs() for x in astx.walk(e))]
+        if not users:
+            out.unsure(fn, sc.ast, f'{pv} is never used')
+            continue
+        w = g.path(g.normal_succ(d), users, avoid=fixes, labels=cfgm.noexc)
+        if w is None:
+            out.ok(fn, fixes[0].ast, f'zero entries of {pv} are replaced before the perturbation is used')
+        else:
+            out.bad(fn, sc.ast, f'the relative perturbation {pv} = value * perturb_size is used without replacing its zero '
+                    'entries: inputs that are exactly 0.0 are never moved, all samples are taken at the same point and '
+                    'derivatives that vanish there are recorded as structural zeros', key='sparsity-zero-perturbation')
+
+
 # =========================================================================== self-test
 _SUB_BLOCK = ("                if self.simul_coloring is not None and self.simul_coloring._subtractions:\n"
               "                    self.simul_coloring._apply_subtractions(self.J)\n")
@@ -3406,6 +3627,38 @@ selftest(
     Mutant('gather-temporaries-wrong-rows', APPROX, "                for i, col in enumerate(jcols):\n                    scratch[:] = 0.0\n                    scratch[nzrows[i]] = res[nzrows[i]]\n",
            "                for icol, col in enumerate(jcols):\n                    col_nzrows = nzrows[icol]\n                    first_nzrows = nzrows[0]\n                    scratch[:] = 0.0\n                    scratch[col_nzrows] = res[first_nzrows]\n",
            'C03.gather'),
+    # ---- round-2 seeds: applicability of the driver colouring, stale colouring, sparsity sampling
+    Mutant('applies-or-custom', TJ, '((orig_of is None and orig_wrt is None) or not has_custom_derivs) and',
+           '((orig_of is None or orig_wrt is None) or not has_custom_derivs) and', 'C03.applies'),
+    Mutant('applies-index-override-ignored', TJ, "                        (of_indices is None and wrt_indices is None)\n",
+           "                        (of_indices is None or wrt_indices is None)\n", 'C03.applies'),
+    Mutant('applies-custom-ignored', TJ, '((orig_of is None and orig_wrt is None) or not has_custom_derivs) and',
+           '((orig_of is None and orig_wrt is None) or has_custom_derivs) and', 'C03.applies'),
+    Twin('applies-twin-demorgan', TJ, '((orig_of is None and orig_wrt is None) or not has_custom_derivs) and',
+         '(not has_custom_derivs or not (orig_wrt is not None or orig_of is not None)) and'),
+    Mutant('stale-dynamic-kept', DRIVER, 'if self._coloring_info.dynamic or self._coloring_info.static is not None:',
+           'if self._coloring_info.static is not None:', 'C03.stale'),
+    Mutant('stale-and', DRIVER, 'if self._coloring_info.dynamic or self._coloring_info.static is not None:',
+           'if self._coloring_info.dynamic and self._coloring_info.static is not None:', 'C03.stale'),
+    Mutant('stale-no-reset', DRIVER, "            if self._coloring_info.dynamic or self._coloring_info.static is not None:\n                self._coloring_info.coloring = None\n",
+           '', 'C03.stale'),
+    Twin('stale-twin-commuted', DRIVER, 'if self._coloring_info.dynamic or self._coloring_info.static is not None:',
+         'if self._coloring_info.static is not None or self._coloring_info.dynamic:'),
+    Twin('stale-twin-unconditional', DRIVER, "            if self._coloring_info.dynamic or self._coloring_info.static is not None:\n                self._coloring_info.coloring = None\n",
+         "            self._coloring_info.coloring = None\n"),
+    Mutant('sparsity-first-sample-signed', COL, "                fullJ = np.abs(J)\n", "                fullJ = J\n", 'C03.sparsity'),
+    Mutant('sparsity-accumulate-signed', COL, "                fullJ += np.abs(J)\n", "                fullJ += J\n", 'C03.sparsity'),
+    Mutant('sparsity-column-signed', COL, 'self._scratch[nzs] += np.abs(column[nzs])', 'self._scratch[nzs] += column[nzs]',
+           'C03.sparsity'),
+    Twin('sparsity-twin-absolute', COL, "                fullJ = np.abs(J)\n", "                fullJ = np.absolute(J)\n"),
+    Twin('sparsity-twin-temporary', COL, "                fullJ += np.abs(J)\n", "                Jmag = np.abs(J)\n                fullJ += Jmag\n"),
+    Mutant('sparsity-zero-perturbation-exec', EXEC, "        in_offsets[in_offsets == 0.0] = 1.0\n", '', 'C03.sparsity'),
+    Mutant('sparsity-zero-perturbation-system', SYSTEM, "            perturb[perturb == 0.0] = 1.0\n", '', 'C03.sparsity'),
+    Mutant('sparsity-zero-fix-after-use', EXEC, "        in_offsets[in_offsets == 0.0] = 1.0\n", '', 'C03.sparsity',
+           also=[(EXEC, "        if not self._relcopy:\n            self._inputs.set_val(starting_inputs)\n\n        sparsity, sp_info",
+                  "        in_offsets[in_offsets == 0.0] = 1.0\n        if not self._relcopy:\n            self._inputs.set_val(starting_inputs)\n\n        sparsity, sp_info")]),
+    Twin('sparsity-twin-fix-after-scaling', EXEC, "        in_offsets[in_offsets == 0.0] = 1.0\n        in_offsets *= info['perturb_size']\n",
+         "        in_offsets *= info['perturb_size']\n        in_offsets[0.0 == in_offsets] = info['perturb_size']\n"),
     Twin('coords-twin-renamed', COL, "    nzrows, nzcols = J.row, J.col\n    col_groups = _get_full_disjoint_cols(J)",
          "    nzrows, nzcols = J.row, J.col\n    col_groups = _get_full_disjoint_col_matrix_cols(_2col_adj_rows_cols(J))"),
 )
